@@ -82,6 +82,10 @@ class Streams:
         return dict(topology=z.name, nelems=len(z.topo), geometry=[repr(m) for m in maps], **{k: (repr(v) if isinstance(v, (P, list)) else v) for k, v in kw.items()})
 
     def gauss_degree(self, z, needed):
+        if 'multipatch' in z.name:
+            # the patches of a multipatch mesh are bilinear (not affine) images of the reference square, so an integrand
+            # of degree n in x has degree up to 2n in the element coordinates and J(x) adds 2 more
+            needed = 2 * needed + 2
         return max(1, min(needed, 7)) if z.simplex else max(1, needed)
 
     # ------------------------------------------------------------ interior operators
